@@ -48,6 +48,7 @@ typedef struct vd_cfg {
     int cionly;
     int ds;                  /* frame downsampling ratio of the scorer (1 default) */
     const char *warp_type, *warp_params;   /* vocal tract length normalisation (NULL = none) */
+    int skip_tmat;           /* use a copy of the model's transition matrices with Bakis skip arcs added (0->2, 1->exit) */
 } vd_cfg;
 void vd_cfg_default(vd_cfg *c, int lang);
 config_t *vd_make_config(const vd_cfg *c);
